@@ -10,7 +10,7 @@ section => error.
 import json
 
 from mon import refbufr as R
-from mon import handover
+from mon import handover, midscan
 from mon.compare import diff_message, jsonable
 from mon.gen import cases
 from mon.gen.shapes import EdgePolicy
@@ -358,6 +358,40 @@ def decoder_option_orders(ctx, dec, msg, cell):
             return
 
 
+def judge_frame(kind, m, msg, opts):
+    """C04's oracle for a message delivered in the middle of other work: the sections the message has, their declared lengths,
+    the total length, (full decodes) the values"""
+    fr = R.parse_frame(msg.bytes)
+    idxs = [sec.get_metadata('index') for sec in m.sections]
+    if kind == 'info':
+        want = [i for i in fr.order if i <= 4]
+        if idxs != want:
+            return 'metadata-only decode has sections %r, expected %r' % (idxs, want)
+        return None
+    if idxs != list(fr.order):
+        return 'sections %r, the message has %r' % (idxs, list(fr.order))
+    if m.length.value != len(msg.bytes):
+        return 'length.value %r != %d' % (m.length.value, len(msg.bytes))
+    for sec in m.sections:
+        idx = sec.get_metadata('index')
+        if 'section_length' in sec and idx in fr.sections and sec.section_length.value != fr.sections[idx][1]:
+            return 'section %d length %r, reference %d' % (idx, sec.section_length.value, fr.sections[idx][1])
+    d = diff_message(m, msg.subsets)
+    if d:
+        return 'values differ: %s %r' % (d[1], jsonable(d[2:]))
+    return None
+
+
+def decoder_mid_scan(ctx, msg):
+    recent = ctx.__dict__.setdefault('_c04_recent', [])
+    recent.append((msg.bytes, msg))
+    if len(recent) >= 6:
+        from pybufrkit.decoder import Decoder
+        ctx.count('mid_scan_blocks')
+        midscan.scenarios(ctx, 'dec', Decoder, recent[:3], recent[3:6], judge_frame, dict(side='decoder-mid-scan'))
+        del recent[:]
+
+
 def decoder_wrong_total(ctx, dec, msg, cell):
     """the message's bytes are the span from BUFR to 7777 (what the sections occupy) whatever follows - also when the
     total-length field of section 0 does not agree with that span (the decoder does not use that field in a full decode)"""
@@ -491,6 +525,7 @@ def run(ctx):
                 decoder_leading_bytes(ctx, dec, msg, cell)
                 decoder_signatures(ctx, dec, msg, cell)
                 decoder_option_orders(ctx, dec, msg, cell)
+                decoder_mid_scan(ctx, msg)
     # random richer messages (multi-subset, compressed, long section 2)
     k = 0
     quota = 150 if ctx.quick else 2500
